@@ -96,6 +96,11 @@ def classify(f, vals, ctx, route, kind, ref, got):
     # (set x (f .. x)): the destination register is written before a later operand (x itself) is read
     # (opreduce: operand i >= 2 is read after the first store; compreduce: operand i >= 1 of a chain of
     #  >= 3 is read again after the first comparison was stored; put: the key/value after the copy of ds)
+    # operand-read-late first: tuples that also contain the assigned variable x (thorough: arity 4) differ because of v,
+    # not because of x - a regression of the repaired set-alias defect still shows on the tuples without M3 and v
+    if inline and f in M.VAROPS and "M3" in vals and "v" in vals and len(vals) >= 3 and \
+            vals.index("M3") < max(i for i, v in enumerate(vals) if v == "v"):
+        return "operand-read-late"
     if inline and ctx in M.HINT_CONTEXTS:
         first = None
         if f in M.VAROPS and len(vals) >= 3:
